@@ -532,6 +532,15 @@ func (fc *FnCtx) index(in *ssa.Index, st *State) {
 	switch t := in.X.Type().Underlying().(type) {
 	case *types.Array:
 		fc.oblig("bounds", text, and(app("<=", "0", i.S), app("<", i.S, itoa(t.Len()))), in.Pos())
+		if len(x.Fs) > 0 {
+			// array of structs held element-wise: an ite chain over the index
+			v := x.Fs[len(x.Fs)-1]
+			for j := len(x.Fs) - 2; j >= 0; j-- {
+				v = fc.iteVal(eq(i.S, itoa(int64(j))), x.Fs[j], v)
+			}
+			fc.vals[in] = v
+			return
+		}
 		k := kindOfType(t.Elem())
 		fc.vals[in] = Val{K: k, T: t.Elem(), S: app("select", x.S, i.S)}
 	case *types.Basic: // string
